@@ -317,10 +317,10 @@ func C15(tier string) int {
 	if thorough {
 		checks = append(checks, "C18")
 	}
-	vocabs = append(vocabs, NameClashVocab(), ThreeVocabs(), TypelessChildVocab())
+	vocabs = append(vocabs, NameClashVocab(), ThreeVocabs(), TypelessChildVocab(), AltPrefixVocab())
 	if only != "" {
 		var sel []ExtVocab
-		for _, v := range append(append([]ExtVocab{FullVocab(1), NameClashVocab(), TypelessChildVocab(), ThreeVocabs()}, MinimalVocabs()...), vocabs...) {
+		for _, v := range append(append([]ExtVocab{FullVocab(1), NameClashVocab(), TypelessChildVocab(), ThreeVocabs(), AltPrefixVocab()}, MinimalVocabs()...), vocabs...) {
 			if v.Label == only && len(sel) == 0 {
 				sel = append(sel, v)
 			}
